@@ -160,11 +160,11 @@ theorem padCell_prefix (L : Nat) (fill : Rat) (c : Cell) (h : c.length ≤ L) :
     Spec.padCell L fill c = c ++ List.replicate (L - c.length) fill := by
   rw [← createPad_eq_spec L fill c h]; simp [createPad]
 
-theorem padTransform_eq_spec (kind : CellKind) (hk : kind ≠ .array) (L : Int) (fill : Rat) (X : Panel)
+theorem padTransform_eq_spec (L : Int) (fill : Rat) (X : Panel)
     (hX : WellShaped X) (hL : (maxLength X : Int) ≤ L) :
-    padTransform kind L fill X = .ok (Spec.pad L.toNat fill X) := by
+    padTransform L fill X = .ok (Spec.pad L.toNat fill X) := by
   have hnot : ¬ ((maxLength X : Int) > L) := by omega
-  simp only [padTransform, checkX_ok hX, hnot, hk, bind, Except.bind, pure, Except.pure, if_false]
+  simp only [padTransform, checkX_ok hX, hnot, bind, Except.bind, pure, Except.pure, if_false]
   congr 1
   unfold Spec.pad
   apply List.map_congr_left
@@ -175,9 +175,9 @@ theorem padTransform_eq_spec (kind : CellKind) (hk : kind ≠ .array) (L : Int) 
   have := le_maxLength hi hc
   omega
 
-theorem padTransform_rejects (kind : CellKind) (L : Int) (fill : Rat) (X : Panel)
+theorem padTransform_rejects (L : Int) (fill : Rat) (X : Panel)
     (hX : WellShaped X) (hL : L < (maxLength X : Int)) :
-    padTransform kind L fill X = .error .value := by
+    padTransform L fill X = .error .value := by
   have : (maxLength X : Int) > L := by omega
   simp [padTransform, checkX_ok hX, this, bind, Except.bind]
 
@@ -223,13 +223,13 @@ theorem ilocList_arange (c : Cell) (a b : Nat) (hab : a ≤ b) (hb : b ≤ c.len
 theorem slice_length (a b : Nat) (c : Cell) (hb : b ≤ c.length) : (Spec.slice a b c).length = b - a := by
   simp [Spec.slice]; omega
 
-theorem truncTransform_eq_spec (kind : CellKind) (hk : kind ≠ .array) (lo : Int) (upper : Option Int)
+theorem truncTransform_eq_spec (lo : Int) (upper : Option Int)
     (X : Panel) (hX : WellShaped X) (a b : Nat) (hab : a ≤ b) (hb : b ≤ minLength X)
     (hlo : lo ≤ (minLength X : Int))
     (hidx : truncIdxs lo upper = arange a b) :
-    truncTransform kind lo upper X = .ok (Spec.truncate a b X) := by
+    truncTransform lo upper X = .ok (Spec.truncate a b X) := by
   have hnot : ¬ ((minLength X : Int) < lo) := by omega
-  simp only [truncTransform, checkX_ok hX, hnot, hk, bind, Except.bind, if_false, hidx]
+  simp only [truncTransform, checkX_ok hX, hnot, bind, Except.bind, if_false, hidx]
   unfold Spec.truncate
   have inner : ∀ inst ∈ X, inst.mapM (fun c => ilocList c (arange a b)) = .ok (inst.map (Spec.slice a b)) := by
     intro inst hi
